@@ -53,15 +53,20 @@ struct sched {
     std::vector<int> replay;             // thread id per step
     std::vector<std::pair<std::uint64_t, int>> preempts; // mode 3: at step s switch to thread t
     int first_thread = 0;
+    std::vector<std::pair<int, int>> script;   // mode 4: (thread, number of times to schedule it) segments
+    std::size_t script_pos = 0;
     std::size_t replay_pos = 0;
     std::vector<int> trace;              // chosen thread per step (for replays)
     // log
     std::mutex logm;
     std::vector<event> log;
     bool log_on = true;
+    bool log_pre = false;   // also log every access at the moment it is performed
     // user log lines (history), with the step at which they were emitted
     std::vector<std::pair<std::uint64_t, std::string>> notes;
     int deadlock = 0;
+    int sleeper = -1;     // thread that just called sleepMs: it gives way to the others
+    int rr = 0;
 
     static sched& get() {
         static sched s;
@@ -93,6 +98,31 @@ inline int pick(sched& S, int me) {
                 if (c == want) chosen = c;
         }
         if (chosen < 0) chosen = cand[0];
+    } else if (S.mode == 4) {
+        while (chosen < 0 && S.script_pos < S.script.size()) {
+            auto& seg = S.script[S.script_pos];
+            bool ok = false;
+            for (int c : cand)
+                if (c == seg.first) ok = true;
+            if (seg.second > 0 && ok) {
+                chosen = seg.first;
+                --seg.second;
+            } else {
+                ++S.script_pos;
+            }
+        }
+        if (chosen < 0 && me != S.sleeper)
+            for (int c : cand)
+                if (c == me) chosen = c;
+        if (chosen < 0) {
+            // round robin among the others (a sleeping thread goes last)
+            for (std::size_t q = 0; q < cand.size() && chosen < 0; ++q) {
+                int c = cand[(S.rr + q) % cand.size()];
+                if (c != S.sleeper || cand.size() == 1) chosen = c;
+            }
+            ++S.rr;
+        }
+        if (chosen < 0) chosen = cand[0];
     } else if (S.mode == 3) {
         // non-preemptive except at the listed steps
         for (auto& pe : S.preempts)
@@ -102,9 +132,16 @@ inline int pick(sched& S, int me) {
         if (chosen < 0 && me < 0 && S.trace.empty())
             for (int c : cand)
                 if (c == S.first_thread) chosen = c;
-        if (chosen < 0)
+        if (chosen < 0 && me != S.sleeper)
             for (int c : cand)
                 if (c == me) chosen = c;
+        if (chosen < 0) {
+            for (std::size_t q = 0; q < cand.size() && chosen < 0; ++q) {
+                int c = cand[(S.rr + q) % cand.size()];
+                if (c != S.sleeper || cand.size() == 1) chosen = c;
+            }
+            ++S.rr;
+        }
         if (chosen < 0) chosen = cand[0];
     } else if (S.mode == 1) {
         for (std::uint64_t cp : S.change_pts)
@@ -121,6 +158,7 @@ inline int pick(sched& S, int me) {
         if (me_ok && U(S.rng) < S.stick) chosen = me;
         else chosen = cand[S.rng() % cand.size()];
     }
+    if (chosen != S.sleeper && S.sleeper >= 0 && chosen >= 0) { /* someone else runs: the sleeper may wake */ }
     S.trace.push_back(chosen);
     return chosen;
 }
@@ -156,8 +194,6 @@ inline void yield_locked(sched& S, std::unique_lock<std::mutex>& lk, int me, boo
 }
 
 inline void hook_pre(int kind, int obj, const volatile void* addr) {
-    (void) obj;
-    (void) addr;
     if (my_tid < 0) return;
     sched& S = sched::get();
     if (!S.active) return;
@@ -166,6 +202,11 @@ inline void hook_pre(int kind, int obj, const volatile void* addr) {
                      kind == yakushima::verif::k_rmw || kind == yakushima::verif::k_retire);
     if (is_write) ++S.write_seq;
     yield_locked(S, lk, my_tid, kind == yakushima::verif::k_spin);
+    if (S.log_pre) {
+        // the access happens right after this point, before the next scheduling point
+        std::lock_guard<std::mutex> lk2(S.logm);
+        S.log.push_back(event{my_tid, kind, obj, reinterpret_cast<std::uintptr_t>(addr), 0, -1, S.steps});
+    }
 }
 
 inline void hook_post(int kind, int obj, const volatile void* addr, std::uint64_t val, int ok) {
@@ -181,7 +222,9 @@ inline bool hook_sleep(std::uint64_t ms) {
     sched& S = sched::get();
     if (!S.active) return false;
     std::unique_lock<std::mutex> lk(S.m);
+    S.sleeper = my_tid;
     yield_locked(S, lk, my_tid, false);
+    if (S.sleeper == my_tid) S.sleeper = -1;
     return true; // no real sleep under the scheduler
 }
 
